@@ -23,6 +23,7 @@ from .c02_sym import (
     Explorer,
     ExtObj,
     ExtRef,
+    ExtView,
     Frame,
     FuncVal,
     Inst,
@@ -53,7 +54,11 @@ LIBRARY_OBJECT_TYPES = ("networkx.DiGraph", "networkx.Graph", "networkx.MultiDiG
 
 
 def _has_yield(fn: ast.AST) -> bool:
-    return any(isinstance(n, (ast.Yield, ast.YieldFrom)) for n in own_nodes(fn))
+    r = getattr(fn, "_c02_has_yield", None)
+    if r is None:
+        r = any(isinstance(n, (ast.Yield, ast.YieldFrom)) for n in own_nodes(fn))
+        fn._c02_has_yield = r  # type: ignore[attr-defined]
+    return r
 
 
 class Interp(InterpBase):
@@ -105,6 +110,15 @@ class Interp(InterpBase):
         m = self.repo.modules.get(modname)
         if m is not None:
             return self.module_global(m, attr)
+        return self.ext_value(dotted)
+
+    @staticmethod
+    def ext_value(dotted: str) -> Any:
+        """Library name as a value: classes of the `ast` grammar are the analyser's own classes (the grammar oracle)."""
+        if dotted.startswith("ast."):
+            c = getattr(ast, dotted[4:], None)
+            if isinstance(c, type) and issubclass(c, ast.AST):
+                return c
         return ExtRef(dotted)
 
     # ------------------------------------------------------------------ calls
@@ -125,6 +139,8 @@ class Interp(InterpBase):
             return self.call_method_builtin(f.recv, f.name, args, kwargs, node, frame)
         if isinstance(f, ExtRef):
             return self.call_ext(f.dotted, args, kwargs, node, frame)
+        if isinstance(f, ExtView):
+            return f  # G.nodes() / G.edges(): the view itself (data= options are not modelled)
         if isinstance(f, type):
             return self.call_pytype(f, args, kwargs, node, frame)
         if isinstance(f, Term):
@@ -196,6 +212,7 @@ class Interp(InterpBase):
 
     def _run_function(self, fi: FuncInfo, args: list, kwargs: dict, closure: Frame | None) -> Any:
         fn = fi.node
+        self.ex.entered.add(fi.fq)
         frame = Frame(fi, fi.module, closure, fi.cls if fi.is_method or fi.cls is not None else None)
         if isinstance(fn, ast.Lambda):
             self.bind_params(fn, args, kwargs, frame, fi)
@@ -317,10 +334,16 @@ class Interp(InterpBase):
         if isinstance(obj, tuple) and len(obj) == 2 and obj[0] == "module" and isinstance(obj[1], ModuleInfo):
             return self.module_global(obj[1], name, node, frame)
         if isinstance(obj, ExtRef):
-            return ExtRef(f"{obj.dotted}.{name}")
+            return self.ext_value(f"{obj.dotted}.{name}")
         if isinstance(obj, ExtObj):
-            if name in ("nodes", "edges", "adj", "succ", "pred"):
-                return App(f"extattr:{name}@{obj.version}", (obj.name,))
+            if name in ("nodes", "edges"):
+                return ExtView(obj, name)
+            if name in ("adj", "succ", "_adj", "_succ"):
+                return ExtView(obj, "adj")
+            if name in ("pred", "_pred"):
+                return ExtView(obj, "pred")
+            return BoundBuiltin(obj, name)
+        if isinstance(obj, ExtView):
             return BoundBuiltin(obj, name)
         if isinstance(obj, Term):
             return BoundBuiltin(obj, name) if self._looks_like_method(node) else App(f"attr:{name}", (obj,))
@@ -354,7 +377,7 @@ class Interp(InterpBase):
         for c in self.repo.mro(ci):
             if name in c.methods:
                 m = c.methods[name]
-                if m.is_property:
+                if m.is_property or "cached_property" in m.decorators:
                     if inst is None:
                         raise Unsupported(f"property {name} read on the class", node, frame.fi if frame else None)
                     return self.call_function(m, [inst], {}, None, node)
@@ -368,8 +391,14 @@ class Interp(InterpBase):
                 if key not in self.modconst:
                     self.modconst[key] = self.eval(c.class_attrs[name], Frame(None, c.module))
                 return self.modconst[key]
-        if inst is not None and any(b.split(".")[-1] in PY_EXC or b.startswith("builtins.") for b in self.repo.external_bases(ci)) and name == "args":
+        ext = {b.split(".")[-1] for b in self.repo.external_bases(ci)}
+        if inst is not None and any(b in PY_EXC for b in ext) and name == "args":
             return inst.args
+        if inst is not None and "NodeVisitor" in ext and name in ("visit", "generic_visit"):
+            return BoundBuiltin(inst, f"NodeVisitor.{name}")
+        unknown = ext - {"object", "ABC", "Protocol", "Generic"} - PY_EXC
+        if unknown and not (name.startswith("visit_") and "NodeVisitor" in ext):
+            raise Unsupported(f"attribute `{name}` may be inherited from the library base class {sorted(unknown)[0]} of {ci.name}", node, frame.fi if frame else None)
         raise Raised(None, "AttributeError")
 
     # ------------------------------------------------------------------ statements
@@ -588,6 +617,8 @@ class Interp(InterpBase):
             return "havoc", v
         if isinstance(v, ExtObj):
             return "havoc", App(f"extiter@{v.version}", (v.name,))
+        if isinstance(v, ExtView):
+            return "havoc", App(f"extiter@{v.obj.version}", (v.obj.name, v.kind, _h(v.key)))
         if isinstance(v, Inst):
             m = self.repo.lookup_method(v.ci, "__iter__")
             if m is not None:
@@ -908,6 +939,25 @@ class Interp(InterpBase):
                 return {ast.Mult: lambda: a * b, ast.FloorDiv: lambda: a // b, ast.Mod: lambda: a % b, ast.Div: lambda: a / b, ast.Pow: lambda: a**b}[type(op)]()
             except Exception as ex:  # noqa: BLE001
                 raise Raised(None, type(ex).__name__)
+        if isinstance(op, ast.BitOr) and all(isinstance(x, (type, ClassVal, ExtRef, tuple)) or x is None for x in (a, b)):
+            flat = []
+            for x in (a, b):
+                flat.extend(x if isinstance(x, tuple) else [type(None) if x is None else x])
+            return tuple(flat)
+        if isinstance(op, ast.Mod) and isinstance(a, str):
+            vals = list(b) if isinstance(b, tuple) else [b]
+            pieces = a.split("%s")
+            if len(pieces) == len(vals) + 1 and all("%" not in p.replace("%%", "") for p in pieces):
+                out = [pieces[0].replace("%%", "%")]
+                for v, p in zip(vals, pieces[1:]):
+                    out += [self.to_str(v, node, frame), p.replace("%%", "%")]
+                return cat(*out)
+            if is_native(b):
+                try:
+                    return a % b
+                except (TypeError, ValueError) as ex:
+                    raise Raised(None, type(ex).__name__)
+            raise Unsupported("%-formatting other than %s with symbolic values", node, fi)
         if isinstance(op, ast.BitOr) and isinstance(a, (set, frozenset)) and isinstance(b, (set, frozenset)):
             return set(a) | set(b)
         if isinstance(op, ast.BitOr) and isinstance(a, dict) and isinstance(b, dict):
@@ -931,19 +981,33 @@ class Interp(InterpBase):
             raise Raised(None, "TypeError")
         if isinstance(c, dict):
             hk = _hashable(k)
-            if hk in c:
-                return c[hk]
-            for key in c:
-                if isinstance(key, Term) or isinstance(hk, Term):
-                    if self.equal(key, hk):
-                        return c[key]
+            key = self.dict_key(c, hk)
+            if key is not _MISSING:
+                return c[key]
             raise Raised(None, "KeyError")
         if isinstance(c, Term):
             if isinstance(k, slice):
                 k = App("slice", (k.start, k.stop, k.step))
             return App("index", (c, _h(k)))
         if isinstance(c, ExtObj):
-            return App(f"extindex@{c.version}", (c.name, _h(k)))
+            return ExtView(c, "adj1", k)
+        if isinstance(c, ExtView):
+            o, v = c.obj, c.obj.version
+            if c.kind == "nodes":
+                if not self.decide(App(f"hasnode@{v}", (o.name, _h(k)))):
+                    raise Raised(None, "KeyError")
+                return App(f"nodedata@{v}", (o.name, _h(k)))
+            if c.kind in ("adj", "pred"):
+                return ExtView(o, c.kind + "1", k)
+            if c.kind == "edges":
+                if not (isinstance(k, tuple) and len(k) == 2):
+                    raise Unsupported("edge view subscript that is not a pair", node, fi)
+                a, b = k
+            else:
+                a, b = (c.key, k) if c.kind == "adj1" else (k, c.key)
+            if not self.decide(App(f"hasedge@{v}", (o.name, _h(a), _h(b)))):
+                raise Raised(None, "KeyError")
+            return App(f"edgedata@{v}", (o.name, _h(a), _h(b)))
         if isinstance(c, Inst):
             m = self.repo.lookup_method(c.ci, "__getitem__")
             if m is not None:
@@ -951,6 +1015,20 @@ class Interp(InterpBase):
         if isinstance(c, (ExtRef, type, ClassVal)):
             return c  # generic alias such as list[str]
         raise Unsupported(f"subscript of a {type(c).__name__} value", node, fi)
+
+    def dict_key(self, d: dict, k: Any) -> Any:
+        """The key of `d` equal to k: structurally, or by an equality already decided on this path (distinct terms are distinct keys)."""
+        try:
+            if k in d:
+                return k
+        except TypeError:
+            raise Raised(None, "TypeError")
+        if isinstance(k, Term) or any(isinstance(x, Term) for x in d):
+            for key in d:
+                a, b = sorted([key, k], key=lambda t: (not isinstance(t, Term), show(t)))
+                if self.path.get(App("eq", (a, b))) is True:
+                    return key
+        return _MISSING
 
     # ------------------------------------------------------------------ calls (expression level)
     def eval_call(self, e: ast.Call, frame: Frame) -> Any:
@@ -1043,6 +1121,9 @@ class Interp(InterpBase):
             if isinstance(c, type):
                 return c
         return None
+
+
+_MISSING = object()
 
 
 class _Opaque(Exception):
